@@ -85,6 +85,8 @@ type FnCtx struct {
 
 type Frame struct {
 	fc       *FnCtx
+	hintCallRes []SV // results of the call a `hint after` is attached to (bound as callresult, callresult<i>)
+	noPanicOld string // ext_nopanic.go: the `nopanic when` condition of the root function, evaluated in the entry state ("" = none)
 	fn       *ssa.Function
 	spec     *FuncSpec
 	prefix   string
@@ -111,6 +113,8 @@ type Frame struct {
 	localsSameBlock bool
 	frame *frameInfo
 	lineHintHits map[int]int // `hint at "line"` clauses: number of program points matched (ext_linehint.go)
+	lastCallRes []SV // results of the call a `hint after` clause is attached to (instr.go)
+	curVisLoop *loopInfo // the loop whose invariants are being evaluated (spec builtin visited(k), ext_crypto.go)
 }
 
 type retRec struct {
@@ -388,7 +392,7 @@ func (fc *FnCtx) registerComp(key, sort string) {
 func (fc *FnCtx) havocComps(st *State, keys map[string]bool, all bool) {
 	if all {
 		for _, k := range fc.compList {
-			if k == "W" || strings.HasPrefix(k, "G|v|") {
+			if k == "W" || strings.HasPrefix(k, "G|v|") || strings.HasPrefix(k, "G|vis|") {
 				continue // auxiliary variables of the function under verification: no callee can write them
 			}
 			st.heap[k] = fc.fresh("H_"+mangle(k), fc.comps[k])
@@ -753,6 +757,9 @@ func (fr *Frame) walk(entry *State, params []SV, entryGuard string) {
 					}
 				}
 				e := inEdge{pred: b, pidx: pidx, guard: and(g, fr.edgeCond(b, si))}
+				if fr.top {
+					fc.cover(fmt.Sprintf("backedge@%d", b.Index), e.guard) // vacuity probe: the loop body can be completed
+				}
 				fr.checkInvariants(li, e, "inv-keep")
 				if blw := fc.loopWrites[fmt.Sprintf("%s#%d", fr.prefix, s.Index)]; blw["*"] {
 					fr.checkFrame(st, e.guard, fmt.Sprintf("L%d", li.ordinal), loopPos(li), nil)
